@@ -7,4 +7,571 @@ import Pk.Model.Manager
 namespace Pk.Proofs.MgrLocks
 open Pk.Mgr
 
+/-! ## assoc tables keyed by Nat -/
+
+@[simp] theorem nget_nil {α} (k : Nat) : nget ([] : List (Nat × α)) k = none := rfl
+
+theorem nget_cons {α} (a : Nat) (b : α) (r : List (Nat × α)) (k : Nat) :
+    nget ((a, b) :: r) k = if a = k then some b else nget r k := by
+  by_cases h : a = k
+  · simp [nget, List.find?, h]
+  · have : (a == k) = false := by simp [h]
+    simp [nget, List.find?, this, h]
+
+/-- lookup after insert (no sortedness needed) -/
+theorem nget_nins {α} (k : Nat) (v : α) (l : List (Nat × α)) (k' : Nat) :
+    nget (nins k v l) k' = if k = k' then some v else nget l k' := by
+  induction l with
+  | nil => simp [nins, nget_cons]
+  | cons a r ih =>
+    obtain ⟨a, b⟩ := a
+    simp only [nins]
+    split
+    · simp [nget_cons]
+    · split
+      · next h => subst h; simp only [nget_cons]; split <;> rfl
+      · next h1 h2 =>
+        simp only [nget_cons, ih]
+        by_cases h3 : a = k'
+        · have : k ≠ k' := by omega
+          simp [h3, this]
+        · simp [h3]
+
+/-- lookup after delete (no sortedness needed) -/
+theorem nget_ndel {α} (l : List (Nat × α)) (k k' : Nat) :
+    nget (ndel l k) k' = if k = k' then none else nget l k' := by
+  induction l with
+  | nil => simp [ndel]
+  | cons a r ih =>
+    obtain ⟨a, b⟩ := a
+    have ih' : nget (List.filter (fun x => x.1 != k) r) k' = if k = k' then none else nget r k' := ih
+    by_cases h : a = k
+    · subst h
+      by_cases h2 : a = k'
+      · subst h2; simpa [ndel, nget_cons] using ih'
+      · simp [ndel, nget_cons, ih', h2]
+    · have : (a != k) = true := by simp [h]
+      simp only [ndel, List.filter, this, nget_cons, ih']
+      by_cases h2 : a = k'
+      · have : k ≠ k' := by omega
+        simp [h2, this]
+      · simp [h2]
+
+theorem nget_eq_none_iff {α} (l : List (Nat × α)) (k : Nat) :
+    nget l k = none ↔ k ∉ l.map (·.1) := by
+  induction l with
+  | nil => simp
+  | cons a r ih =>
+    obtain ⟨a, b⟩ := a
+    simp only [nget_cons, List.map_cons, List.mem_cons, not_or]
+    by_cases h : a = k
+    · simp [h]
+    · simp [h, ih]; omega
+
+/-! ## `lock` -/
+
+@[simp] theorem lock_nil (u : List (Nat × Nat)) : lock u [] = u := rfl
+theorem lock_cons (u : List (Nat × Nat)) (g : Nat) (fs : List Nat) :
+    lock u (g :: fs) = lock (nins g ((nget u g).getD 0 + 1) u) fs := rfl
+
+/-- `lock` adds the multiplicity of `f` in the list to its count -/
+theorem lock_getD (u : List (Nat × Nat)) (fs : List Nat) (f : Nat) :
+    (nget (lock u fs) f).getD 0 = (nget u f).getD 0 + fs.count f := by
+  induction fs generalizing u with
+  | nil => simp
+  | cons g fs ih =>
+    rw [lock_cons, ih, nget_nins, List.count_cons]
+    by_cases h : g = f
+    · subst h; simp; omega
+    · simp [h]
+
+theorem lock_ne_zero (u : List (Nat × Nat)) (fs : List Nat) (h : ∀ f, nget u f ≠ some 0) :
+    ∀ f, nget (lock u fs) f ≠ some 0 := by
+  induction fs generalizing u with
+  | nil => simpa using h
+  | cons g fs ih =>
+    rw [lock_cons]
+    apply ih
+    intro f
+    rw [nget_nins]
+    split
+    · simp
+    · exact h f
+
+theorem lock_isSome (u : List (Nat × Nat)) (fs : List Nat) (f : Nat) :
+    (nget (lock u fs) f).isSome = ((nget u f).isSome || decide (f ∈ fs)) := by
+  induction fs generalizing u with
+  | nil => simp
+  | cons g fs ih =>
+    rw [lock_cons, ih, nget_nins]
+    by_cases h : g = f
+    · subst h; simp
+    · have : ¬ f = g := fun e => h e.symm
+      simp [h, this]
+
+/-- files created by an import / a merge are entered into the file table -/
+theorem nget_insFiles_isSome (cr : List (Nat × List Nat)) (files : List (Nat × List Nat)) (f : Nat) :
+    (nget (cr.foldl (fun fs (x : Nat × List Nat) => nins x.1 x.2 fs) files) f).isSome
+      = ((nget files f).isSome || decide (f ∈ cr.map (·.1))) := by
+  induction cr generalizing files with
+  | nil => simp
+  | cons a cr ih =>
+    rw [List.foldl_cons, ih, nget_nins]
+    by_cases h : a.1 = f
+    · subst h; simp
+    · have : ¬ f = a.1 := fun e => h e.symm
+      simp only [List.map_cons, List.mem_cons, this, false_or, if_neg h]
+
+/-! ## `release` -/
+
+/-- one iteration of `release` -/
+def release1 (s : St) (f : Nat) : St :=
+  match nget s.used f with
+  | none => s
+  | some n => if n ≤ 1 then { s with used := ndel s.used f, files := ndel s.files f }
+              else { s with used := nins f (n - 1) s.used }
+
+@[simp] theorem release_nil (s : St) : release s [] = s := rfl
+theorem release_cons (s : St) (g : Nat) (fs : List Nat) :
+    release s (g :: fs) = release (release1 s g) fs := rfl
+
+theorem release1_getD (s : St) (g f : Nat) :
+    (nget (release1 s g).used f).getD 0 = (nget s.used f).getD 0 - (if g = f then 1 else 0) := by
+  unfold release1
+  split
+  · next h =>
+    by_cases e : g = f
+    · subst e; simp [h]
+    · simp [e]
+  · next n h =>
+    split
+    · simp only [nget_ndel]
+      by_cases e : g = f
+      · subst e; simp [h]; omega
+      · simp [e]
+    · simp only [nget_nins]
+      by_cases e : g = f
+      · subst e; simp [h]
+      · simp [e]
+
+/-- `release` subtracts the multiplicity of `f` in the list from its count (truncated at 0) -/
+theorem release_getD (s : St) (fs : List Nat) (f : Nat) :
+    (nget (release s fs).used f).getD 0 = (nget s.used f).getD 0 - fs.count f := by
+  induction fs generalizing s with
+  | nil => simp
+  | cons g fs ih =>
+    rw [release_cons, ih, release1_getD, List.count_cons]
+    by_cases h : g = f
+    · subst h; simp; omega
+    · simp [h]
+
+theorem release1_ne_zero (s : St) (g : Nat) (h : ∀ f, nget s.used f ≠ some 0) :
+    ∀ f, nget (release1 s g).used f ≠ some 0 := by
+  intro f
+  unfold release1
+  split
+  · exact h f
+  · next n hn =>
+    split
+    · simp only [nget_ndel]; split
+      · simp
+      · exact h f
+    · simp only [nget_nins]; split
+      · simp; omega
+      · exact h f
+
+theorem release_ne_zero (s : St) (fs : List Nat) (h : ∀ f, nget s.used f ≠ some 0) :
+    ∀ f, nget (release s fs).used f ≠ some 0 := by
+  induction fs generalizing s with
+  | nil => simpa using h
+  | cons g fs ih => rw [release_cons]; exact ih _ (release1_ne_zero s g h)
+
+theorem release1_sync (s : St) (g : Nat)
+    (h : ∀ f, (nget s.files f).isSome = (nget s.used f).isSome) :
+    ∀ f, (nget (release1 s g).files f).isSome = (nget (release1 s g).used f).isSome := by
+  intro f
+  unfold release1
+  split
+  · exact h f
+  · next n hn =>
+    split
+    · simp only [nget_ndel]; split
+      · rfl
+      · exact h f
+    · simp only [nget_nins]; split
+      · next e => subst e; simp [h, hn]
+      · exact h f
+
+/-- a file is closed and deleted exactly when its count reaches zero -/
+theorem release_sync (s : St) (fs : List Nat)
+    (h : ∀ f, (nget s.files f).isSome = (nget s.used f).isSome) :
+    ∀ f, (nget (release s fs).files f).isSome = (nget (release s fs).used f).isSome := by
+  induction fs generalizing s with
+  | nil => simpa using h
+  | cons g fs ih => rw [release_cons]; exact ih _ (release1_sync s g h)
+
+/-- `release` of files whose count stays positive deletes nothing -/
+theorem release1_files_of_pos (s : St) (g : Nat) (h : 1 < (nget s.used g).getD 0) :
+    (release1 s g).files = s.files := by
+  unfold release1
+  split
+  · rfl
+  · next n hn =>
+    have : ¬ n ≤ 1 := by simp [hn] at h; omega
+    simp [this]
+
+theorem release_files_of_pos (s : St) (fs : List Nat)
+    (h : ∀ f ∈ fs, fs.count f < (nget s.used f).getD 0) :
+    (release s fs).files = s.files := by
+  induction fs generalizing s with
+  | nil => rfl
+  | cons g fs ih =>
+    rw [release_cons, ih]
+    · apply release1_files_of_pos
+      have := h g (by simp)
+      simp at this; omega
+    · intro f hf
+      rw [release1_getD]
+      have := h f (by simp [hf])
+      rw [List.count_cons] at this
+      by_cases e : g = f
+      · subst e; simp at this ⊢; omega
+      · simp [e] at this ⊢; omega
+
+/-- a file whose count stays positive is still in the file table, with the same content -/
+theorem release_nget_files_of_pos (s : St) (fs : List Nat) (f : Nat)
+    (h : fs.count f < (nget s.used f).getD 0) :
+    nget (release s fs).files f = nget s.files f := by
+  induction fs generalizing s with
+  | nil => rfl
+  | cons g fs ih =>
+    rw [release_cons, ih]
+    · unfold release1
+      split
+      · rfl
+      · next n hn =>
+        split
+        · next hle =>
+          simp only [nget_ndel]
+          split
+          · next e =>
+            subst e; simp [hn] at h; omega
+          · rfl
+        · rfl
+    · rw [release1_getD]
+      rw [List.count_cons] at h
+      by_cases e : g = f
+      · subst e; simp at h ⊢; omega
+      · simp [e] at h ⊢; omega
+
+/-! ## the view table -/
+
+theorem nins_perm {α} (k : Nat) (v : α) (l : List (Nat × α)) (h : nget l k = none) :
+    (nins k v l).Perm ((k, v) :: l) := by
+  induction l with
+  | nil => simp [nins]
+  | cons a r ih =>
+    obtain ⟨a, b⟩ := a
+    rw [nget_cons] at h
+    have hak : ¬ a = k := by intro e; simp [e] at h
+    simp only [hak, if_false] at h
+    simp only [nins]
+    split
+    · exact List.Perm.refl _
+    · split
+      · next e => exact absurd e.symm hak
+      · exact ((ih h).cons (a, b)).trans (List.Perm.swap _ _ _)
+
+theorem count_flatMap_nins (k : Nat) (v : List Nat) (l : List (Nat × List Nat)) (h : nget l k = none)
+    (f : Nat) : ((nins k v l).flatMap (·.2)).count f = v.count f + (l.flatMap (·.2)).count f := by
+  rw [((nins_perm k v l h).flatMap_right _).count_eq]
+  simp
+
+theorem nodup_keys_nins {α} (k : Nat) (v : α) (l : List (Nat × α)) (h : nget l k = none)
+    (hn : (l.map (·.1)).Nodup) : ((nins k v l).map (·.1)).Nodup := by
+  rw [((nins_perm k v l h).map _).nodup_iff]
+  simp only [List.map_cons, List.nodup_cons]
+  exact ⟨(nget_eq_none_iff l k).1 h, hn⟩
+
+theorem nodup_keys_ndel {α} (k : Nat) (l : List (Nat × α)) (hn : (l.map (·.1)).Nodup) :
+    ((ndel l k).map (·.1)).Nodup :=
+  hn.sublist ((List.filter_sublist (l := l)).map _)
+
+theorem count_flatMap_ndel (k : Nat) (l : List (Nat × List Nat)) (fs : List Nat)
+    (hn : (l.map (·.1)).Nodup) (h : nget l k = some fs) (f : Nat) :
+    (l.flatMap (·.2)).count f = fs.count f + ((ndel l k).flatMap (·.2)).count f := by
+  induction l with
+  | nil => simp at h
+  | cons a r ih =>
+    obtain ⟨a, b⟩ := a
+    simp only [List.map_cons, List.nodup_cons] at hn
+    rw [nget_cons] at h
+    by_cases e : a = k
+    · subst e
+      simp only [if_true, Option.some.injEq] at h
+      subst h
+      have hr : ndel r a = r := by
+        apply List.filter_eq_self.2
+        intro x hx
+        have : x.1 ≠ a := by
+          intro e; apply hn.1; rw [← e]; exact List.mem_map_of_mem hx
+        simp [this]
+      have : ndel ((a, b) :: r) a = ndel r a := by simp [ndel]
+      rw [this, hr]; simp
+    · simp only [e, if_false] at h
+      have : ndel ((a, b) :: r) k = (a, b) :: ndel r k := by simp [ndel, e]
+      rw [this]
+      simp only [List.flatMap_cons, List.count_append]
+      rw [ih hn.2 h]; omega
+
+/-! ## the lock-relevant part of the state and the generalised invariant -/
+
+/-- the part of the state the lock discipline talks about -/
+structure LK where
+  idx : List Nat
+  files : List (Nat × List Nat)
+  used : List (Nat × Nat)
+  views : List (Nat × List Nat)
+  jI : Option (List Nat)
+  jT : Option (List Nat)
+  jM : Option (List Nat)
+  jC : Option (List Nat)
+  qE : Bool
+  tag : Bool
+  merge : Bool
+  convert : Bool
+
+def proj (s : St) : LK :=
+  { idx := s.idx, files := s.files, used := s.used, views := s.views,
+    jI := s.jImport.map (·.2), jT := s.jTag.map (·.2.2), jM := s.jMerge.map (·.2),
+    jC := s.jConv.map (·.2), qE := s.queue.isEmpty, tag := s.tag, merge := s.merge,
+    convert := s.convert }
+
+def LK.held (k : LK) : List Nat := k.jI.getD [] ++ k.jT.getD [] ++ k.jM.getD [] ++ k.jC.getD []
+
+def LK.holders (k : LK) (f : Nat) : Nat :=
+  k.idx.count f + (k.views.flatMap (·.2)).count f + k.held.count f
+
+/-- view keys are unique; a job slot is only occupied while its flag is set (an import job runs
+    exactly while the queue is non-empty) -/
+def LK.JobsWF (k : LK) : Prop :=
+  (k.views.map (·.1)).Nodup ∧ (k.qE = true → k.jI = none) ∧ (k.tag = false → k.jT = none) ∧
+  (k.merge = false → k.jM = none) ∧ (k.convert = false → k.jC = none)
+
+/-- the invariant, generalised by a list `p` of locks that are still to be released in the
+    current event -/
+def CInvK (p : List Nat) (k : LK) : Prop :=
+  (∀ f, (nget k.used f).getD 0 = k.holders f + p.count f) ∧
+  (∀ f, nget k.used f ≠ some 0) ∧
+  (∀ f, (nget k.files f).isSome = (nget k.used f).isSome) ∧
+  k.JobsWF
+
+def CInv (p : List Nat) (s : St) : Prop := CInvK p (proj s)
+
+theorem CInv_frame {p : List Nat} {s s' : St} (e : proj s' = proj s) (h : CInv p s) : CInv p s' := by
+  unfold CInv; rw [e]; exact h
+
+theorem isSome_of_getD_pos {o : Option Nat} (h : 0 < o.getD 0) : o.isSome = true := by
+  cases o <;> simp at h ⊢
+
+/-- locking files of the service list -/
+theorem CInvK.lock_idx {p : List Nat} {k : LK} (h : CInvK p k) (fs : List Nat)
+    (hfs : ∀ f ∈ fs, f ∈ k.idx) (k' : LK)
+    (hu : k'.used = lock k.used fs) (hf : k'.files = k.files)
+    (hh : ∀ f, k'.holders f = k.holders f + fs.count f) (hw : k'.JobsWF) : CInvK p k' := by
+  obtain ⟨h1, h2, h3, _⟩ := h
+  refine ⟨?_, ?_, ?_, hw⟩
+  · intro f; rw [hu, lock_getD, h1, hh]; omega
+  · rw [hu]; exact lock_ne_zero _ _ h2
+  · intro f
+    rw [hu, hf, lock_isSome, h3]
+    by_cases hm : f ∈ fs
+    · have : 0 < (nget k.used f).getD 0 := by
+        rw [h1]; unfold LK.holders
+        have := List.count_pos_iff.2 (hfs f hm)
+        omega
+      simp [isSome_of_getD_pos this]
+    · simp [hm]
+
+theorem mem_of_mem_drop' {l : List Nat} {i f : Nat} (h : f ∈ l.drop i) : f ∈ l :=
+  (List.drop_sublist i l).subset h
+
+/-! ### job starts (K level) -/
+
+theorem CInvK.start_import {p : List Nat} {k : LK} (i : Nat) (h : CInvK p k) (hj : k.jI = none)
+    (hq : k.qE = false) :
+    CInvK p { k with used := lock k.used (k.idx.drop i), jI := some (k.idx.drop i) } := by
+  obtain ⟨_, hI, hT, hM, hC⟩ := h.2.2.2
+  refine h.lock_idx (k.idx.drop i) (fun f => mem_of_mem_drop') _ rfl rfl ?_ ⟨‹_›, ?_, hT, hM, hC⟩
+  · intro f; simp [LK.holders, LK.held, hj]; omega
+  · intro e; simp [hq] at e
+
+theorem CInvK.start_tag {p : List Nat} {k : LK} (i : Nat) (h : CInvK p k) (hj : k.tag = false) :
+    CInvK p { k with used := lock k.used (k.idx.drop i), jT := some (k.idx.drop i), tag := true } := by
+  obtain ⟨_, hI, hT, hM, hC⟩ := h.2.2.2
+  refine h.lock_idx (k.idx.drop i) (fun f => mem_of_mem_drop') _ rfl rfl ?_ ⟨‹_›, hI, ?_, hM, hC⟩
+  · intro f; simp [LK.holders, LK.held, hT hj]; omega
+  · intro e; simp at e
+
+theorem CInvK.start_merge {p : List Nat} {k : LK} (i : Nat) (h : CInvK p k) (hj : k.merge = false) :
+    CInvK p { k with used := lock k.used (k.idx.drop i), jM := some (k.idx.drop i), merge := true } := by
+  obtain ⟨_, hI, hT, hM, hC⟩ := h.2.2.2
+  refine h.lock_idx (k.idx.drop i) (fun f => mem_of_mem_drop') _ rfl rfl ?_ ⟨‹_›, hI, hT, ?_, hC⟩
+  · intro f; simp [LK.holders, LK.held, hM hj]; omega
+  · intro e; simp at e
+
+theorem CInvK.start_conv {p : List Nat} {k : LK} (i : Nat) (h : CInvK p k) (hj : k.convert = false) :
+    CInvK p { k with used := lock k.used (k.idx.drop i), jC := some (k.idx.drop i), convert := true } := by
+  obtain ⟨_, hI, hT, hM, hC⟩ := h.2.2.2
+  refine h.lock_idx (k.idx.drop i) (fun f => mem_of_mem_drop') _ rfl rfl ?_ ⟨‹_›, hI, hT, hM, ?_⟩
+  · intro f; simp [LK.holders, LK.held, hC hj]; omega
+  · intro e; simp at e
+
+theorem CInvK.open_view {p : List Nat} {k : LK} (i key : Nat) (h : CInvK p k)
+    (hv : nget k.views key = none) :
+    CInvK p { k with used := lock k.used (k.idx.drop i), views := nins key (k.idx.drop i) k.views } := by
+  obtain ⟨hN, hI, hT, hM, hC⟩ := h.2.2.2
+  refine h.lock_idx (k.idx.drop i) (fun f => mem_of_mem_drop') _ rfl rfl ?_
+    ⟨nodup_keys_nins _ _ _ hv hN, hI, hT, hM, hC⟩
+  intro f
+  simp only [LK.holders, LK.held, count_flatMap_nins _ _ _ hv]
+  omega
+
+/-! ### job completions (K level): the job slot is emptied, its locks become pending -/
+
+theorem CInvK.done_import {p : List Nat} {k : LK} {held : List Nat} (h : CInvK p k)
+    (hj : k.jI = some held) : CInvK (held ++ p) { k with jI := none } := by
+  obtain ⟨h1, h2, h3, hN, hI, hT, hM, hC⟩ := h
+  refine ⟨?_, h2, h3, hN, fun _ => rfl, hT, hM, hC⟩
+  intro f; rw [h1]; simp [LK.holders, LK.held, hj]; omega
+
+theorem CInvK.done_tag {p : List Nat} {k : LK} {held : List Nat} (h : CInvK p k)
+    (hj : k.jT = some held) : CInvK (held ++ p) { k with jT := none } := by
+  obtain ⟨h1, h2, h3, hN, hI, hT, hM, hC⟩ := h
+  refine ⟨?_, h2, h3, hN, hI, fun _ => rfl, hM, hC⟩
+  intro f; rw [h1]; simp [LK.holders, LK.held, hj]; omega
+
+theorem CInvK.done_merge {p : List Nat} {k : LK} {held : List Nat} (h : CInvK p k)
+    (hj : k.jM = some held) : CInvK (held ++ p) { k with jM := none } := by
+  obtain ⟨h1, h2, h3, hN, hI, hT, hM, hC⟩ := h
+  refine ⟨?_, h2, h3, hN, hI, hT, fun _ => rfl, hC⟩
+  intro f; rw [h1]; simp [LK.holders, LK.held, hj]; omega
+
+theorem CInvK.done_conv {p : List Nat} {k : LK} {held : List Nat} (h : CInvK p k)
+    (hj : k.jC = some held) : CInvK (held ++ p) { k with jC := none } := by
+  obtain ⟨h1, h2, h3, hN, hI, hT, hM, hC⟩ := h
+  refine ⟨?_, h2, h3, hN, hI, hT, hM, fun _ => rfl⟩
+  intro f; rw [h1]; simp [LK.holders, LK.held, hj]; omega
+
+/-- clearing a flag whose job slot is empty -/
+theorem CInvK.clear_tag {p : List Nat} {k : LK} (h : CInvK p k) (hj : k.jT = none) :
+    CInvK p { k with tag := false } := by
+  obtain ⟨h1, h2, h3, hN, hI, hT, hM, hC⟩ := h
+  exact ⟨h1, h2, h3, hN, hI, fun _ => hj, hM, hC⟩
+
+theorem CInvK.clear_merge {p : List Nat} {k : LK} (h : CInvK p k) (hj : k.jM = none) :
+    CInvK p { k with merge := false } := by
+  obtain ⟨h1, h2, h3, hN, hI, hT, hM, hC⟩ := h
+  exact ⟨h1, h2, h3, hN, hI, hT, fun _ => hj, hC⟩
+
+theorem CInvK.clear_conv {p : List Nat} {k : LK} (h : CInvK p k) (hj : k.jC = none) :
+    CInvK p { k with convert := false } := by
+  obtain ⟨h1, h2, h3, hN, hI, hT, hM, hC⟩ := h
+  exact ⟨h1, h2, h3, hN, hI, hT, hM, fun _ => hj⟩
+
+/-- changing the queue while no import job runs -/
+theorem CInvK.set_queue {p : List Nat} {k : LK} (b : Bool) (h : CInvK p k) (hj : k.jI = none) :
+    CInvK p { k with qE := b } := by
+  obtain ⟨h1, h2, h3, hN, hI, hT, hM, hC⟩ := h
+  exact ⟨h1, h2, h3, hN, fun _ => hj, hT, hM, hC⟩
+
+/-- the queue becomes (or stays) non-empty -/
+theorem CInvK.queue_nonempty {p : List Nat} {k : LK} (h : CInvK p k) :
+    CInvK p { k with qE := false } := by
+  obtain ⟨h1, h2, h3, hN, hI, hT, hM, hC⟩ := h
+  refine ⟨h1, h2, h3, hN, ?_, hT, hM, hC⟩
+  intro e; simp at e
+
+/-- closing a view: its locks become pending -/
+theorem CInvK.close_view {p : List Nat} {k : LK} {key : Nat} {fs : List Nat} (h : CInvK p k)
+    (hv : nget k.views key = some fs) : CInvK (fs ++ p) { k with views := ndel k.views key } := by
+  obtain ⟨h1, h2, h3, hN, hI, hT, hM, hC⟩ := h
+  refine ⟨?_, h2, h3, nodup_keys_ndel _ _ hN, hI, hT, hM, hC⟩
+  intro f; rw [h1]
+  simp only [LK.holders, LK.held, count_flatMap_ndel _ _ _ hN hv f, List.count_append]
+  omega
+
+/-- new files (created by an import): appended to the service list with one lock each -/
+theorem CInvK.add_files {p : List Nat} {k : LK} (cr : List (Nat × List Nat)) (h : CInvK p k) :
+    CInvK p { k with idx := k.idx ++ cr.map (·.1),
+                     files := cr.foldl (fun fs (x : Nat × List Nat) => nins x.1 x.2 fs) k.files,
+                     used := lock k.used (cr.map (·.1)) } := by
+  obtain ⟨h1, h2, h3, hw⟩ := h
+  refine ⟨?_, lock_ne_zero _ _ h2, ?_, hw⟩
+  · intro f; simp only [lock_getD, h1, LK.holders, LK.held, List.count_append]; omega
+  · intro f; simp only [nget_insFiles_isSome, lock_isSome, h3]
+
+/-! ## frame lemmas: which helper leaves the lock-relevant part alone -/
+
+theorem proj_release1 (s : St) (g : Nat) :
+    proj (release1 s g) = { proj s with used := (release1 s g).used, files := (release1 s g).files } := by
+  unfold release1
+  split
+  · rfl
+  · split <;> rfl
+
+theorem proj_release (s : St) (fs : List Nat) :
+    proj (release s fs) = { proj s with used := (release s fs).used, files := (release s fs).files } := by
+  induction fs generalizing s with
+  | nil => rfl
+  | cons g fs ih => rw [release_cons, ih, proj_release1]
+
+/-- releasing the pending locks -/
+theorem CInv_release {p held : List Nat} {s : St} (h : CInv (held ++ p) s) : CInv p (release s held) := by
+  unfold CInv at *
+  rw [proj_release]
+  obtain ⟨h1, h2, h3, hw⟩ := h
+  refine ⟨?_, release_ne_zero s held h2, release_sync s held h3, hw⟩
+  intro f
+  have := h1 f
+  simp only [List.count_append] at this
+  show (nget (release s held).used f).getD 0 = (proj s).holders f + p.count f
+  rw [release_getD]
+  show (nget (proj s).used f).getD 0 - _ = _
+  omega
+
+theorem proj_foldl {β} (f : St → β → St) (hf : ∀ s x, proj (f s x) = proj s) (l : List β) (s : St) :
+    proj (l.foldl f s) = proj s := by
+  induction l generalizing s with
+  | nil => rfl
+  | cons a l ih => rw [List.foldl_cons, ih, hf]
+
+@[simp] theorem proj_inherit (s : St) : proj (inherit s) = proj s := rfl
+@[simp] theorem proj_invalidateTags (s : St) (u r a : IdSet) : proj (invalidateTags s u r a) = proj s := rfl
+@[simp] theorem proj_invalidatedDuringTaggingJob (s : St) (ids : IdSet) :
+    proj (invalidatedDuringTaggingJob s ids) = proj s := by
+  unfold invalidatedDuringTaggingJob; split <;> rfl
+@[simp] theorem proj_invalidateConverters (s : St) (u : IdSet) : proj (invalidateConverters s u) = proj s := by
+  unfold invalidateConverters
+  apply proj_foldl
+  intro s c; rfl
+@[simp] theorem proj_setTag (s : St) (n : String) (t : Tag) : proj (setTag s n t) = proj s := rfl
+@[simp] theorem proj_addRefBy (s : St) (a b : String) : proj (addRefBy s a b) = proj s := by
+  unfold addRefBy; split <;> rfl
+@[simp] theorem proj_delRefBy (s : St) (a b : String) : proj (delRefBy s a b) = proj s := by
+  unfold delRefBy; split <;> rfl
+@[simp] theorem proj_attachConv (s : St) (n c : String) : proj (attachConv s n c).1 = proj s := by
+  unfold attachConv
+  split
+  · rfl
+  · split
+    · rfl
+    · split <;> rfl
+@[simp] theorem proj_detachConv (s : St) (n c : String) : proj (detachConv s n c) = proj s := by
+  unfold detachConv
+  split
+  · rfl
+  · simp only []
+    split <;> rfl
+
 end Pk.Proofs.MgrLocks
